@@ -20,4 +20,4 @@ YOUR TASK: produce TWO different, realistic changes to the library source (each 
  2. write a demonstration {wt}/seed_out/<n>/demo.py: a standalone script (run as `cd {wt} && PYTHONPATH={wt} /venv/bin/python seed_out/<n>/demo.py`) that exercises the real library (simulate with amaranth's simulator / transactron.testing helpers, or call the function) and exits non-zero with a clear message when the property is violated — it must FAIL with the change applied and PASS on the unmodified worktree;
  3. run the existing tests that cover the touched files (at least the test modules for the changed component, plus test/core if you touched transactron/core) with the change applied and confirm they still pass (known flaky, load-sensitive tests: test_stack.py::test_randomized, test_storage.py::TestContentAddressableMemory::test_random, hypothesis DeadlineExceeded — ignore those); say exactly which test files you ran;
  4. write {wt}/seed_out/<n>/meta.json: {{"property": "{p['id']}", "summary": "...", "needs_to_manifest": "<the specific interleaving/sequence/configuration needed>", "files_touched": [...], "tests_run": [...], "demo_fails_with_patch": true, "demo_passes_without_patch": true}}.
-Leave the worktree clean at the end (`git checkout -- . ` so that only seed_out/ is untracked). Keep the patches small (1–10 changed lines each). If after honest effort you can produce only one such change, deliver one and say why. Your final message: for each change a 3-line description (what, what is needed to manifest, which tests ran).""")
+Never use `git stash` (the stash is shared between all worktrees of the repository and other agents use it): save diffs to files instead. Leave the worktree clean at the end (`git checkout -- . ` so that only seed_out/ is untracked). Keep the patches small (1–10 changed lines each). If after honest effort you can produce only one such change, deliver one and say why. Your final message: for each change a 3-line description (what, what is needed to manifest, which tests ran).""")
